@@ -38,122 +38,189 @@ def check(run):
 
 
 def vcut(run, F):
+    import re
     fn = F.one('MapValidBasic::vcut')
+    env0 = N.self_env(fn)
+    # element closures: the one-parameter closures that scan the intervals in a loop
     cls = [x for x in walk(fn.hir) if x.get('k') == 'Closure' and len(x['params']) == 1 and
-           x['params'][0].get('name') == 'value']
+           any(y.get('k') == 'For' for y in walk(x))]
     run.ob('CUT.closed', fn, 'two element closures (right / left closed)', len(cls) == 2, fn.loc(),
            '%d closure(s)' % len(cls))
-    # which arm: the `if right` dispatch
-    top_if = [x for x in walk(fn.hir) if x.get('k') == 'If' and src(peel(x['ch'][0])) == 'right']
+    add_b = [x for x in walk(fn.hir) if x.get('k') == 'If' and dtree.conj(x['ch'][0], dict(env0)) == ['add_bounds']
+             and len(x['ch']) == 3]
+    sent = dtree.canon(add_b[0]['ch'][1], dict(env0)) if add_b else ''
+    lo_sent = 'Number::min_()' in sent
+    hi_sent = 'Number::max_()' in sent
+    seen_arms = set()
     for cl in cls:
-        is_right = bool(top_if) and any(y is cl for y in walk(top_if[0]['ch'][1]))
-        env = {cl['params'][0]['local']: 'v'}
-        t = dtree.table(cl['ch'][0], env)
-        nullrow = [(cs, l) for cs, l, ef in t if '!VALID(v)' in cs]
-        valrow = [(cs, l, ef) for cs, l, ef in t if 'VALID(v)' in cs]
-        ok = len(nullrow) == 1 and nullrow[0][1].endswith('Ok(NULL)') and len(valrow) == 1 and \
-            valrow[0][1].startswith('out.ok_or_else(') and 'out := NULL' in valrow[0][2]
+        g = dtree.guards_at(fn.hir, cl, env0)
+        gc = set(g[0]) if g else set()
+        is_right = 'right' in gc
+        arm = 'right' if is_right else 'left'
+        if not ({'right', '!right'} & gc):
+            run.ob('CUT.closed', fn, 'closure selected by the `right` flag', False, loc(cl), 'guards %s' % sorted(gc))
+            continue
+        seen_arms.add(arm)
+        t = dtree.closure_table(fn.hir, cl, env0)
+        nullrow = [(cs, l, ef) for cs, l, ef in t if '!VALID(a0)' in cs]
+        valrow = [(cs, l, ef) for cs, l, ef in t if 'VALID(a0)' in cs]
+        ok = len(nullrow) == 1 and nullrow[0][1].endswith('Ok(NULL)') and not nullrow[0][2] and len(valrow) == 1
+        outv = None
+        if ok:
+            m = re.match(r'(\w+)\.ok_or_else\(', valrow[0][1])
+            outv = m.group(1) if m else None
+            ok = outv is not None and ('%s := NULL' % outv) in valrow[0][2]
         un = [x for x in walk(cl) if x.get('k') == 'MethodCall' and
               callee_is(x, 'Option::unwrap', 'Option::expect', 'Result::unwrap', 'Result::expect')]
-        run.ob('CUT.null', fn, '%s arm: null -> null label, no match -> Err' %
-               ('right' if is_right else 'left'), ok and not un, loc(cl),
-               'rows %s; unwrap/expect calls: %d' % ([(sorted(c), l[:30]) for c, l in nullrow] +
+        run.ob('CUT.null', fn, '%s arm: null -> null label, no match -> Err' % arm, ok and not un, loc(cl),
+               'rows %s; unwrap/expect calls: %d' % ([(sorted(c), l[:30]) for c, l, _ in nullrow] +
                                                      [(sorted(c), l[:20]) for c, l, _ in valrow], len(un)))
         loops = [x for x in walk(cl) if x.get('k') == 'For']
         okc = len(loops) == 1
         det = '%d loop(s)' % len(loops)
         if okc:
             lp = loops[0]
-            it = src(peel(lp['ch'][0]))
-            ifs = [x for x in walk(lp['ch'][1]) if x.get('k') == 'If']
-            cond = dtree.conj(ifs[0]['ch'][0], {lp['pat']['ch'][0]['local']: 'bound',
-                                               lp['pat']['ch'][1]['local']: 'label',
-                                               **env}) if ifs and lp['pat'].get('k') == 'Tuple' else []
-            # `value` inside the loop is the unwrapped shadow: name it v
-            cond = [c.replace('value', 'v') for c in cond]
-            want = ['(bound.0 < v)', '(v <= bound.1)'] if is_right else ['(bound.0 <= v)', '(v < bound.1)']
-            body = src(ifs[0]['ch'][1]) if ifs else ''
-            okc = sorted(cond) == sorted(want) and 'out = v1::Some(label.clone())' in body and \
-                'break' in body and 'tuple_windows()' in it and '.zip(labels.titer())' in it and \
-                it.startswith('bins.titer()')
-            det = 'test %s (expected %s); body `%s`; over `%s`' % (sorted(cond), sorted(want), body[:50], it[:60])
-        run.ob('CUT.closed', fn, '%s-closed interval test' % ('right' if is_right else 'left'), okc,
-               loc(cl), det)
+            en_l = dtree.env_at(fn.hir, lp, env0)
+            it = dtree.canon(lp['ch'][0], en_l)
+            asg = [x for x in walk(lp['ch'][1]) if x.get('k') == 'Assign']
+            okc = len(asg) == 1
+            det = '%d assignment(s) in the loop' % len(asg)
+            if okc:
+                gg, en_a = dtree.guards_at(fn.hir, asg[0], env0)
+                conds = dtree.simplify(frozenset(c for c in gg if c not in gc and c != 'VALID(a0)')) or frozenset()
+                tgt, val = dtree.canon(asg[0]['ch'][0], en_a), dtree.canon(asg[0]['ch'][1], en_a)
+                # loop pattern (bound, label): m0 = interval, m1 = label
+                want = {'(m0.0 < a0)', '(a0 <= m0.1)'} if is_right else {'(m0.0 <= a0)', '(a0 < m0.1)'}
+                # first match wins: a `break` follows the assignment in the same block
+                brk = any(x.get('k') == 'Block' and any(peel(st.get('e', {})) is asg[0] for st in x.get('stmts', []))
+                          and any(y.get('k') == 'Break' for st in x.get('stmts', []) for y in walk(st.get('e', {}))
+                                  ) or (x.get('k') == 'Block' and 'expr' in x and peel(x['expr']).get('k') == 'Break'
+                                        and any(peel(st.get('e', {})) is asg[0] for st in x.get('stmts', [])))
+                          for x in walk(lp['ch'][1]))
+                shape = re.fullmatch(r'(\w+)\.titer\(\)\.tuple_windows\(\)\.zip\(labels\.titer\(\)\)', it)
+                okc = set(conds) == want and tgt == outv and val == 'Some(m1)' and brk and bool(shape)
+                det = 'test %s (expected %s); `%s = %s`%s; over `%s`' % (
+                    sorted(conds), sorted(want), tgt, val, ' then break' if brk else ' WITHOUT break', it[:70])
+        run.ob('CUT.closed', fn, '%s-closed interval test' % arm, okc, loc(cl), det)
         # sentinel rule
-        add_b = [x for x in walk(fn.hir) if x.get('k') == 'If' and src(peel(x['ch'][0])) == 'add_bounds']
-        sent = src(add_b[0]['ch'][1]) if add_b else ''
-        lo_sent = 'Number::min_()' in sent
-        hi_sent = 'Number::max_()' in sent
-        if okc or True:
-            strict_lo = is_right
-            strict_hi = not is_right
-            bad = (lo_sent and strict_lo) or (hi_sent and strict_hi)
-            which = 'lower bound MIN compared with `<`' if is_right else 'upper bound MAX compared with `<`'
-            run.ob('CUT.sentinel', fn, '%s-closed arm: %s' % ('right' if is_right else 'left', which),
-                   not bad, loc(cl),
-                   'with add_bounds the outer edge is %s and this arm tests it strictly: the value '
-                   '%s falls outside every interval' % (('T::MIN' if is_right else 'T::MAX'),
-                                                        ('T::MIN' if is_right else 'T::MAX')))
-    # label count
-    add_b = [x for x in walk(fn.hir) if x.get('k') == 'If' and src(peel(x['ch'][0])) == 'add_bounds'
-             and len(x['ch']) == 3]
-    ok = False
-    det = 'no `if add_bounds` dispatch'
-    if add_b:
-        def err_guard(block, cond_src):
-            for x in walk(block):
-                if x.get('k') == 'If' and src(peel(x['ch'][0])) == cond_src:
-                    rets = [y for y in walk(x['ch'][1]) if y.get('k') == 'Ret']
-                    return bool(rets) and all('Err(' in src(r) for r in rets)
-            return False
-        c1 = err_guard(add_b[0]['ch'][1], '(labels.len() != (bins.len() + 1))')
-        c2 = err_guard(add_b[0]['ch'][2], '((labels.len() + 1) != bins.len())')
-        first_cl = min((x['_o'] for x in []), default=None)
-        ok = c1 and c2
-        det = 'open bounds: labels == edges + 1 enforced: %s; closed: labels + 1 == edges enforced: %s' % (c1, c2)
-    run.ob('CUT.labels', fn, 'label count checked in both modes', ok, fn.loc(), det)
+        strict_lo = is_right
+        strict_hi = not is_right
+        bad = (lo_sent and strict_lo) or (hi_sent and strict_hi)
+        which = 'lower bound MIN compared with `<`' if is_right else 'upper bound MAX compared with `<`'
+        run.ob('CUT.sentinel', fn, '%s-closed arm: %s' % (arm, which), not bad, loc(cl),
+               'with add_bounds the outer edge is %s and this arm tests it strictly: the value '
+               '%s falls outside every interval' % (('T::MIN' if is_right else 'T::MAX'),
+                                                    ('T::MIN' if is_right else 'T::MAX')))
+    run.ob('CUT.closed', fn, 'one closure per closedness', seen_arms == {'right', 'left'}, fn.loc(),
+           'arms %s' % sorted(seen_arms))
+    # label count: decided on all (add_bounds, #labels, #edges) with counts 0..5
+    t = N.tbl(fn)
+    bad = []
+    for ab in (True, False):
+        for nl in range(6):
+            for nb in range(6):
+                want_err = (nl != nb + 1) if ab else (nl + 1 != nb)
+                got = []
+                for cs, leaf, ef in t:
+                    vals = [dtree.holds(c, {'add_bounds': ab, 'labels.len()': nl, 'bins.len()': nb,
+                                            'right': True}) for c in cs]
+                    if None in vals:
+                        bad.append('unrecognised condition %s' % sorted(cs))
+                        break
+                    if all(vals):
+                        got.append('Err' if leaf.startswith('v1::Err(') or leaf.startswith('Err(') else 'Ok')
+                if got != ['Err' if want_err else 'Ok']:
+                    bad.append('add_bounds=%s labels=%d edges=%d: %s' % (ab, nl, nb, got))
+    run.ob('CUT.labels', fn, 'label count checked in both modes', not bad, fn.loc(),
+           '72 (mode, #labels, #edges) points: Err exactly when labels != edges + 1 (open bounds) / '
+           'labels + 1 != edges' + ('' if not bad else ' ; ' + '; '.join(bad[:3])))
 
 
 def unique(run, F):
+    import re
     fn = F.one('MapValidBasic::vsorted_unique_idx')
+    env0 = N.self_env(fn)
     cls = [x for x in walk(fn.hir) if x.get('k') == 'Closure' and len(x['params']) == 1 and
            x['params'][0].get('k') == 'Tuple']
-    want_first = T((['VALID(v)', '(Some(v) != last_value)'], 'Some(i)', ['last_value = Some(v)']),
-                   (['VALID(v)', '(Some(v) == last_value)'], 'NULL', []),
-                   (['!VALID(v)'], 'NULL', []))
-    OUT = 'out := if VALID(last_value) { Some(i) } else { NULL }'
-    want_last = T((['VALID(v)', '(Some(v) != last_value)'], 'out', [OUT, 'last_value = Some(v)']),
-                  (['VALID(v)', '(Some(v) == last_value)'], 'NULL', []),
-                  (['!VALID(v)'], 'out', [OUT, 'last_value = NULL']))
+    # a0 = position, a1 = element, `last` = the run state captured by the closure
+    want_first = T((['VALID(a1)', '(Some(a1) != last)'], 'Some(a0)', ['last = Some(a1)']),
+                   (['VALID(a1)', '(Some(a1) == last)'], 'NULL', []),
+                   (['!VALID(a1)'], 'NULL', []))
+    OUT = 'out := if VALID(last) { Some(a0) } else { NULL }'
+    want_last = T((['VALID(a1)', '(Some(a1) != last)'], 'out', [OUT, 'last = Some(a1)']),
+                  (['VALID(a1)', '(Some(a1) == last)'], 'NULL', []),
+                  (['!VALID(a1)'], 'out', [OUT, 'last = NULL']))
+    # the emission may equally be written inline in both branches (no helper let)
+    want_last2 = T((['VALID(a1)', '(Some(a1) != last)', 'VALID(last)'], 'Some(a0)', ['last = Some(a1)']),
+                   (['VALID(a1)', '(Some(a1) != last)', '!VALID(last)'], 'NULL', ['last = Some(a1)']),
+                   (['VALID(a1)', '(Some(a1) == last)'], 'NULL', []),
+                   (['!VALID(a1)', 'VALID(last)'], 'Some(a0)', ['last = NULL']),
+                   (['!VALID(a1)', '!VALID(last)'], 'NULL', ['last = NULL']))
     run.ob('UNQ.table', fn, 'two index closures', len(cls) == 2, fn.loc(), '%d' % len(cls))
-    for cl, want, nm in zip(cls, (want_first, want_last), ('Keep::First', 'Keep::Last')):
-        env = {b['local']: b['name'] for b in _pat_binds(cl['params'][0])}
-        t = dtree.table(cl['ch'][0], env)
-        run.ob('UNQ.table', fn, '%s closure' % nm, t == want, loc(cl), 'table %s' % dtree.show(t))
-    s = src(fn.hir)
-    ok = 'iter.map(|v| v.to_opt()).chain(iter::once(v1::None)).enumerate().filter_map(' in s and \
-        'let first_element = iter.next();' in s
+    by_arm = {}
+    for cl in cls:
+        g = dtree.guards_at(fn.hir, cl, env0)
+        arm = [c for c in (g[0] if g else []) if c.startswith('keep is ')]
+        by_arm[arm[0].split('::')[-1] if arm else '?'] = cl
+    for nm, wants in (('First', (want_first,)), ('Last', (want_last, want_last2))):
+        cl = by_arm.get(nm)
+        if cl is None:
+            run.ob('UNQ.table', fn, 'Keep::%s closure' % nm, False, fn.loc(), 'no closure under `keep is Keep::%s`' % nm)
+            continue
+        t = dtree.closure_table(fn.hir, cl, env0)
+        run.ob('UNQ.table', fn, 'Keep::%s closure' % nm, any(t == w for w in wants), loc(cl),
+               'table %s' % dtree.show(t))
+    # Keep::Last pipeline: the first element seeds the run state, the rest are enumerated from 0
+    # and closed by one trailing null
+    ft = N.tbl(fn)
+    last_rows = [(cs, l, ef) for cs, l, ef in ft if 'keep is Keep::Last' in cs]
+    ok = len(last_rows) == 1
+    det = '%d row(s) for Keep::Last' % len(last_rows)
+    if ok:
+        cs, leaf, ef = last_rows[0]
+        defs = {}
+        for e in ef:
+            if ' := ' in e:
+                k_, v_ = e.split(' := ', 1)
+                defs[k_] = v_
+        it = [k_ for k_, v_ in defs.items() if v_ == 'self.into_iter()']
+        ok = len(it) == 1
+        if ok:
+            itn = it[0]
+            firsts = [k_ for k_, v_ in defs.items() if v_ == '%s.next()' % itn]
+            pipe = [v_ for v_ in defs.values() if v_.startswith('%s.map(|a0| a0).chain(iter::once(NULL)).enumerate().filter_map(' % itn)]
+            order = [e.split(' := ')[0] for e in ef if ' := ' in e]
+            ok = len(firsts) == 1 and len(pipe) == 1 and \
+                order.index(firsts[0]) < [i for i, e in enumerate(order) if defs[e] is pipe[0]][0]
+            det = 'first element: %s; pipeline: %s' % (firsts, [p_[:70] for p_ in pipe])
+            if ok:
+                # run state seeded from the first element: Some(first) when it is valid, else null
+                fe = firsts[0]
+                seed_lets = []
+                for blk in walk(fn.hir):
+                    if blk.get('k') != 'Block':
+                        continue
+                    for st in blk.get('stmts', []):
+                        if st['k'] == 'Let' and 'init' in st and st['pat'].get('k') == 'Binding' and \
+                                peel(st['init']).get('k') in ('If', 'Match'):
+                            en_s = dtree.env_at(fn.hir, st['init'], env0)
+                            ts = dtree.table(st['init'], en_s)
+                            if any(fe in c for cs_, l_, e_ in ts for c in cs_):
+                                seed_lets.append(ts)
+                oks = len(seed_lets) == 1 and all(
+                    (l_ == 'NULL' and '!VALID(%s)' % fe in cs_ and not e_) or
+                    (l_ == 'Some(%s)' % fe and cs_ == frozenset({'VALID(%s)' % fe}) and not e_)
+                    for cs_, l_, e_ in seed_lets[0]) and len(seed_lets[0]) == 2
+                run.ob('UNQ.table', fn, 'Keep::Last run state seeded from the first element', oks, fn.loc(),
+                       'seed %s' % [dtree.show(x) for x in seed_lets])
     run.ob('UNQ.table', fn, 'Keep::Last pipeline: shifted by one, closed by a trailing null', ok,
-           fn.loc(), 'first element consumed, the rest enumerated from 0 with a sentinel None')
-    seed = [x for x in walk(fn.hir) if x.get('k') == 'Block' for st in x.get('stmts', [])
-            if st['k'] == 'Let' and st['pat'].get('name') == 'last_value' and 'first_element' in src(st.get('init', {}))]
-    if seed:
-        st = [st for st in seed[0]['stmts'] if st['k'] == 'Let' and st['pat'].get('name') == 'last_value'][0]
-        t = dtree.table(st['init'], {})
-        want = T((['VALID(first_element)', 'VALID(first_element)'], 'Some(first_element)', []),)
-        rows = {(frozenset(cs), l) for cs, l, ef in t}
-        ok = rows == {(frozenset({'VALID(first_element)'}), 'Some(first_element)'),
-                      (frozenset({'!VALID(first_element)'}), 'NULL')} or \
-            all((l == 'NULL') == any(c.startswith('!VALID') for c in cs) for cs, l in rows)
-        run.ob('UNQ.table', fn, 'Keep::Last run state seeded from the first element', ok, fn.loc(),
-               'rows %s' % sorted((sorted(c), l) for c, l in rows))
+           fn.loc(), det)
     fn = F.one('MapValidBasic::vsorted_unique')
     cls = [x for x in walk(fn.hir) if x.get('k') == 'Closure']
-    want = T((['VALID(v)', 'VALID(value)', '(v != value)'], 'Some(IsNone::from_inner(v))', ['value = Some(v)']),
-             (['VALID(v)', 'VALID(value)', '(v == value)'], 'NULL', []),
-             (['VALID(v)', '!VALID(value)'], 'Some(IsNone::from_inner(v))', ['value = Some(v)']),
-             (['!VALID(v)'], 'NULL', []))
+    want = T((['VALID(a0)', 'VALID(value)', '(a0 != value)'], 'Some(IsNone::from_inner(a0))', ['value = Some(a0)']),
+             (['VALID(a0)', 'VALID(value)', '(a0 == value)'], 'NULL', []),
+             (['VALID(a0)', '!VALID(value)'], 'Some(IsNone::from_inner(a0))', ['value = Some(a0)']),
+             (['!VALID(a0)'], 'NULL', []))
     if cls:
-        env = {cls[0]['params'][0]['local']: 'v'}
-        t = dtree.table(cls[0]['ch'][0], env)
+        t = dtree.closure_table(fn.hir, cls[0], N.self_env(fn))
         run.ob('UNQ.table', fn, 'unique-value closure', t == want, loc(cls[0]), 'table %s' % dtree.show(t))
